@@ -175,6 +175,14 @@ func runPhase(t *testing.T, sc *Scenario, tasks [][]Call, faults, trivial bool, 
 				if u, err := url.Parse("http://sim.test" + sc.Prefix); err == nil {
 					client.override, client.overrideText, client.withURL = u, fmt.Sprintf("%#v", *u), f
 				}
+			} else if len(tp.ReqOpts) == 4 && sc.Override {
+				// the package takes its overrides as per-call request options
+				if u, err := url.Parse("http://sim.test" + sc.Prefix); err == nil {
+					client.override, client.overrideText, client.hc = u, fmt.Sprintf("%#v", *u), tr
+					for _, o := range tp.ReqOpts {
+						client.reqOpts = append(client.reqOpts, reflect.ValueOf(o))
+					}
+				}
 			}
 		} else {
 			newServer := servers[sc.Pkg]
